@@ -15,6 +15,9 @@ import (
 	"sync/atomic"
 
 	"go.dedis.ch/kyber/v4"
+	"go.dedis.ch/kyber/v4/group/edwards25519"
+	"go.dedis.ch/kyber/v4/group/edwards25519vartime"
+	"go.dedis.ch/kyber/v4/group/p256"
 	"go.dedis.ch/kyber/v4/pairing"
 	"go.dedis.ch/kyber/v4/proof"
 	"go.dedis.ch/kyber/v4/share"
@@ -220,6 +223,22 @@ type raceSuite interface {
 	kyber.Random
 }
 
+// freshSuite builds a new suite object of the named group, untouched by earlier scenarios (an accessor
+// that caches on first use has then not been called yet when the goroutines start).
+func freshSuite(gname string) raceSuite {
+	switch gname {
+	case "ed25519":
+		return edwards25519.NewBlakeSHA256Ed25519()
+	case "ed25519vt-proj":
+		return edwards25519vartime.NewBlakeSHA256Ed25519(false)
+	case "p256":
+		return p256.NewBlakeSHA256P256()
+	case "qr512":
+		return p256.NewBlakeSHA256QR512()
+	}
+	return nil
+}
+
 // raceSchemeScenarios: suites, pairings and scheme objects with shared keys.
 func raceSchemeScenarios() []raceScenario {
 	var out []raceScenario
@@ -258,7 +277,11 @@ func raceSchemeScenarios() []raceScenario {
 				}, "48 false"
 			}},
 			raceScenario{"suite", "RandomStream", gname, func() (func() string, string) {
-				// every goroutine asks the shared suite for its stream and draws from it
+				// every goroutine asks the shared (new) suite for its stream and draws from it
+				s := freshSuite(gname)
+				if s == nil {
+					return nil, ""
+				}
 				return func() string {
 					b := make([]byte, 24)
 					s.RandomStream().XORKeyStream(b, b)
@@ -272,6 +295,10 @@ func raceSchemeScenarios() []raceScenario {
 				}, "24 false"
 			}},
 			raceScenario{"suite", "key.NewKeyPair", gname, func() (func() string, string) {
+				s := freshSuite(gname)
+				if s == nil {
+					return nil, ""
+				}
 				return func() string {
 					kp := key.NewKeyPair(s)
 					return fmt.Sprint(kp.Public.Equal(s.Point().Mul(kp.Private, nil)))
@@ -356,22 +383,33 @@ func raceSchemeScenarios() []raceScenario {
 				pubs = append(pubs, p.G2.Group.Point().Mul(p.G2.Group.Scalar().Pick(kc.NewRng(uint64(40+i))), nil))
 			}
 			base, err := bdn.NewMask(p.G2.Group, pubs, nil)
-			if err != nil {
+			ref, err2 := bdn.NewMask(p.G2.Group, pubs, nil)
+			if err != nil || err2 != nil {
 				return nil, ""
 			}
 			base.SetBit(0, true)
+			ref.SetBit(0, true)
 			scheme := bdn.NewSchemeOnG1(p.Suite)
-			f := func() string {
-				c := base.Clone()
-				c.SetBit(2, true)
-				c.SetBit(4, true)
-				agg, err := scheme.AggregatePublicKeys(c)
+			agg := func(m *bdn.Mask, k int) string {
+				c := m.Clone()
+				c.SetBit(1+k%4, true)
+				c.SetBit(1+(k+1)%4, true)
+				a, err := scheme.AggregatePublicKeys(c)
 				if err != nil {
 					return "err"
 				}
-				return rmar(agg)
+				return rmar(a)
 			}
-			return f, f()
+			// expected values from a second mask object: the shared one is first used by the goroutines
+			var want [4]string
+			for k := range want {
+				want[k] = agg(ref, k)
+			}
+			var ctr int64
+			return func() string {
+				k := int(atomic.AddInt64(&ctr, 1) % 4)
+				return fmt.Sprint(agg(base, k) == want[k])
+			}, "true"
 		}})
 	}
 	// Schnorr / EdDSA / CoSi with shared keys
